@@ -123,5 +123,12 @@ CLAIMS['C01'] = {
   'note': _TB + 'The statement parser, tokeniser, device layers and callbacks without a contract are not covered. Seven internal-error defects were found through these and the other contracts and fixed (PEEK default, TIME$, ENVIRON, RENUM, empty protected file, IMP with a string, HEX$ of values below -65536).',
 }
 
+CLAIMS['C18'] = {
+  'text': 'Proof of the core: (1) the precedence table is the strict GW-BASIC chain with equal precedence inside each group and every operator token bound to its value-layer function (ground facts re-read each run); '
+          '(2) ExpressionParser._drain applies exactly the stacked operators of precedence >= the incoming one, top first, operands in source order, for symbolic precedences/arities (stack depth <= 4) - i.e. left-to-right grouping at equal precedence; '
+          '(3) result classes of + - * / \\ MOD and the logical operators for all 9 numeric operand pairings (modular). The token loop of parse is only read structurally.',
+  'note': _TB + 'Not proved: ExpressionParser.parse token loop, parentheses, function calls, ^ typing. Relational result type is C06, string/number Type mismatch is C01.',
+}
+
 NOT_APPLICABLE = {
 }
